@@ -371,6 +371,13 @@ func (c *Ctx) lockStateStructure(fn *ssa.Function) {
 		last := HasOrigin(c.rawOrigins(Arg(call, 1)), func(o Origin) bool { return o.Kind == "call" && strings.Contains(o.Name, ".GetLastAttempt#") })
 		return now && last
 	}
+	// the window is measured from the previous attempt: the last-attempt time is
+	// read before this attempt's stamp is written
+	for _, g := range c.userCalls(fn, "GetLastAttempt") {
+		for _, p := range c.userCalls(fn, "PutLastAttempt") {
+			r.Check(!Reaches(p.(ssa.Instruction), g.(ssa.Instruction)), "C04.state", name, "GetLastAttempt≺PutLastAttempt", posf(c, g), "previous attempt read before the new stamp", "the last-attempt time is read after this attempt's own stamp was written: the elapsed time is always zero, the window never runs out and old failures keep adding up")
+		}
+	}
 	inWindow := func(f Fact) bool {
 		rel := f.Rel()
 		return (rel.Op == token.LEQ && isElapsed(rel.X) && fieldLoadName(rel.Y) == "LockWindow") ||
